@@ -878,16 +878,19 @@ def image_labels_add(rep, M, rid):
         fn = M.func(fq)
         for lp in [x for x in ast.walk(fn) if isinstance(x, ast.For) and isinstance(x.target, ast.Name)]:
             var = lp.target.id
+            def label(e):
+                return e.args[0] if isinstance(e, ast.Call) and isinstance(e.func, ast.Name) and e.func.id == "tuple" and e.args and isinstance(e.args[0], ast.BinOp) else None
             for st in lp.body:
-                if not (isinstance(st, ast.Assign) and isinstance(st.value, ast.Call) and isinstance(st.value.func, ast.Name) and st.value.func.id == "tuple"
-                        and st.value.args and isinstance(st.value.args[0], ast.BinOp)):
-                    continue
-                b = st.value.args[0]
-                if not any(isinstance(x, ast.Name) and x.id == var for x in ast.walk(b)):
-                    continue
-                appended = any(isinstance(c, ast.Call) and isinstance(c.func, ast.Attribute) and c.func.attr == "append" and c.args and norm(c.args[0]) == norm(st.targets[0])
-                               for s2 in lp.body for c in ast.walk(s2))
-                if not appended:
+                b = None
+                if isinstance(st, ast.Assign) and label(st.value) is not None:
+                    # `label = tuple(seed + offset)` followed by `....append(label)`
+                    if any(isinstance(c, ast.Call) and isinstance(c.func, ast.Attribute) and c.func.attr == "append" and c.args and norm(c.args[0]) == norm(st.targets[0])
+                           for s2 in lp.body for c in ast.walk(s2)):
+                        b = label(st.value)
+                elif isinstance(st, ast.Expr) and isinstance(st.value, ast.Call) and isinstance(st.value.func, ast.Attribute) and st.value.func.attr == "append" \
+                        and st.value.args and label(st.value.args[0]) is not None:
+                    b = label(st.value.args[0])     # `....append(tuple(seed + offset))`
+                if b is None or not any(isinstance(x, ast.Name) and x.id == var for x in ast.walk(b)):
                     continue
                 n += 1
                 if isinstance(b.op, ast.Add):
